@@ -22,6 +22,9 @@ Integer kernels (class KI, prelude Hdc/Gen/KernelsBase.lean + Hdc/PyNpT.lean) ->
       `np.zeros((d0, d1, d2), dtype=..)` -> `npFull (d0*d1*d2) 0` with the dimensions bound to `<name>_d0 ...`;
       `a.shape[1]` -> the bound dimension
     * `np.zeros(n, dtype=np.float64 | np.int64 | <dtype parameter>)`, `a[:] = 0`, `np.nan`
+  instrumentation mode (`KI(cfg, fn, safe=True)`, see py2lean.py): per kernel a second module Hdc/Gen/Safe<Name>.lean, the same
+    program + the flag `bad`; in addition to `a[i]` it checks n-d subscripts (each index against its axis + the flat position),
+    boolean masks (`a[mask]`, `a[mask] = v`: the mask must have the length of `a`) and `x / n` with an integer divisor `n = 0`
 
 Floating kernels (class KN, prelude Hdc/Gen/NumBase.lean + Hdc/PyNpT.lean) -> Hdc/Gen/Num<Name>.lean
     autocorr_1d_float (ops/autocorr.py)   mk_score, mk_variance_s, mk_z_score, mk_p_value, mk_sens_slope,
@@ -67,7 +70,7 @@ class KI(pyi.K):
     LEAN_TY = {"int": "Int", "f": "β", "arr": "Array Int", "arrf": "Array β", "mask": "Array Bool"}
     INIT = {"int": "0", "f": "F.lit 0", "arr": "#[]", "arrf": "#[]", "mask": "#[]"}
 
-    def __init__(self, cfg, fn):
+    def __init__(self, cfg, fn, safe=False):
         params = {}
         self.dims = {}                      # n-d array -> the Lean names of its dimensions
         self.fdtypes = set()                # parameters that are a (floating) dtype
@@ -81,7 +84,7 @@ class KI(pyi.K):
                 continue
             params[nm] = kind
             self.ty[nm] = {"arr": "arr", "out": "arr", "int": "int", "num": "int", "arrf": "arrf", "outf": "arrf"}[kind]
-        super().__init__(dict(cfg, params={k: ("arr" if v == "arrf" else "out" if v == "outf" else v) for k, v in params.items()}), fn)
+        super().__init__(dict(cfg, params={k: ("arr" if v == "arrf" else "out" if v == "outf" else v) for k, v in params.items()}), fn, safe=safe)
         self.cfg = cfg
         self.arrs = {k for k, v in self.ty.items() if v == "arr"}
         self.tmp = 0
@@ -202,10 +205,17 @@ class KI(pyi.K):
             d = self.dims.get(arr)
             if d is None or len(d) != len(sl.elts) or len(d) not in (2, 3):
                 raise Unsupported(f"{len(sl.elts)}-d index into {arr}")
-            return f"(flat{len(d)} {' '.join(d)} {' '.join(self.iexpr(x) for x in sl.elts)})"
+            ixs = [self.iexpr(x) for x in sl.elts]
+            flat = f"(flat{len(d)} {' '.join(d)} {' '.join(ixs)})"
+            for dk, ik in zip(d, ixs):                            # safe mode: each index against its axis ...
+                self.chk(f"(oob {dk} {ik})")
+            self.chk(f"(oobFlat {arr}.size {flat})")              # ... and the position inside the flat buffer
+            return flat
         if arr in self.dims:
             raise Unsupported(f"1-d index into the n-d array {arr}")
-        return self.iexpr(sl)
+        i = self.iexpr(sl)
+        self.chk_index(arr, i)
+        return i
 
     def iexpr(self, e):
         if self.tyof(e) != "int":
@@ -243,7 +253,12 @@ class KI(pyi.K):
         if isinstance(e, ast.Attribute):
             return "F.nan"
         if isinstance(e, ast.BinOp) and isinstance(e.op, ast.Div):
-            return f"(F.div {self.fexpr(e.left)} {self.fexpr(e.right)})"
+            num = self.fexpr(e.left)
+            if self.safe:                                         # true division: flagged when the (integer) divisor is 0
+                if self.tyof(e.right) != "int":
+                    raise Unsupported("safe mode: division by a floating value")
+                self.chk(f"(decide ({self.iexpr(e.right)} = (0 : Int)))")
+            return f"(F.div {num} {self.fexpr(e.right)})"
         if isinstance(e, ast.BinOp) and isinstance(e.op, ast.Add):
             return f"(F.add {self.fexpr(e.left)} {self.fexpr(e.right)})"
         if isinstance(e, ast.Subscript):
@@ -277,6 +292,7 @@ class KI(pyi.K):
         if t == "mask":                                           # m = a == k
             return self.bind(name, f"npEqMask {self.arr_name(v.left)} {self.iexpr(v.comparators[0])}", ind)
         if t in ("arr", "arrf") and isinstance(v, ast.Subscript) and isinstance(v.slice, ast.Name) and self.ty.get(v.slice.id) == "mask":
+            self.chk(f"(maskBad {self.arr_name(v.value)} {v.slice.id})")
             return self.bind(name, f"npCompress {self.arr_name(v.value)} {v.slice.id}", ind)     # p = a[m]
         if t in ("arr", "arrf") and isinstance(v, ast.Call) and isinstance(v.func, ast.Attribute) and v.func.attr == "zeros":
             shape = v.args[0]
@@ -312,6 +328,7 @@ class KI(pyi.K):
                 flt = self.ty[arr] == "arrf"
                 val = self.fexpr(v) if flt else self.iexpr(v)
                 if isinstance(t.slice, ast.Name) and self.ty.get(t.slice.id) == "mask":             # a[m] = v
+                    self.chk(f"(maskBad {arr} {t.slice.id})")
                     return self.emit(ind, f"{arr} := npMaskSet {arr} {t.slice.id} {val}")
                 if isinstance(t.slice, ast.Slice):
                     if t.slice.lower is None and t.slice.upper is None and t.slice.step is None:    # a[:] = v
@@ -365,6 +382,8 @@ class KI(pyi.K):
                             self.emit(1, f"let mut {nm} : {self.LEAN_TY[t]} := {self.INIT[t]}")
 
     def run(self):
+        if self.safe:
+            self.emit(1, "let mut bad : Bool := false")
         for nm, kind in self.cfg["params"].items():
             if kind in ("out", "outf"):
                 self.emit(1, f"let mut {nm} : {self.LEAN_TY[self.ty[nm]]} := {nm}")
@@ -376,7 +395,7 @@ class KI(pyi.K):
                     raise Unsupported("return value")
                 break
             self.stmt(s, 1)
-        self.emit(1, f"return {ret}")
+        self.emit(1, f"return ({ret}, bad)" if self.safe else f"return {ret}")
         return "\n".join(self.lines)
 
     def signature(self):
@@ -387,7 +406,8 @@ class KI(pyi.K):
             parts.append(f"({nm} : {self.LEAN_TY[self.ty[nm]]})")
             if nm in self.dims:
                 parts.append("(" + " ".join(self.dims[nm]) + " : Int)")
-        return " ".join(parts), self.LEAN_TY[self.ty[self.cfg["ret"]]]
+        rty = self.LEAN_TY[self.ty[self.cfg["ret"]]]
+        return " ".join(parts), (f"({rty}) × Bool" if self.safe else rty)
 
 
 INT_KERNELS = [
@@ -401,18 +421,29 @@ INT_KERNELS = [
 ]
 
 
-def int_module(cfg):
-    return "K" + "".join(w.capitalize() for w in cfg["name"].split("_"))
+def int_module(cfg, prefix="K"):
+    return prefix + "".join(w.capitalize() for w in cfg["name"].split("_"))
 
 
-def translate_int(cfg):
+def translate_int(cfg, safe=False):
+    """the text of Hdc/Gen/K<Name>.lean (safe=False) or of the instrumented Hdc/Gen/Safe<Name>.lean (safe=True: the same
+    program + the flag `bad`, see the prelude Hdc/Gen/SafeBase.lean written by py2lean.py)"""
     src = (REPO / cfg["file"]).read_text()
     mod = ast.parse(src)
     fn = next(n for n in ast.walk(mod) if isinstance(n, ast.FunctionDef) and n.name == cfg["func"])
-    k = KI(cfg, fn)
+    k = KI(cfg, fn, safe=safe)
     body = k.run()
+    if k.checks:
+        raise Unsupported("safe mode: checks left over")
     sig, rty = k.signature()
     sha = hashlib.sha256(ast.get_source_segment(src, fn).encode()).hexdigest()[:16]
+    if safe:
+        return (f"import Hdc.Gen.KernelsBase\nimport Hdc.Gen.SafeBase\nimport Hdc.PyNpT\n/-\nGENERATED by harness/{TOOL}.py (instrumentation mode) from {cfg['file']}::{cfg['func']} "
+                f"(sha256 of the function source {sha}).  Do not edit.\n-/\n"
+                f"namespace Hdc.Gen.Safe\nopen Hdc.Gen.Kernels (rd wr pyRange pyRangeDown whereEq pySlice)\n"
+                f"open Hdc.PyNpT (FloatOps rdD wrG npEqMask npCompress npMaskSet npFull flat2 flat3)\n\n"
+                f"/-- `{cfg['file']}::{cfg['func']}` with the flag `bad`: (result, some subscript was out of range) -/\n"
+                f"def {cfg['name']} {sig} : {rty} := Id.run do\n{body}\n\nend Hdc.Gen.Safe\n")
     return (f"import Hdc.Gen.KernelsBase\nimport Hdc.PyNpT\n/-\nGENERATED by harness/{TOOL}.py from {cfg['file']}::{cfg['func']} "
             f"(sha256 of the function source {sha}).  Do not edit.\n-/\n"
             f"namespace Hdc.Gen.Kernels\nopen Hdc.PyNpT (FloatOps rdD wrG npEqMask npCompress npMaskSet npFull flat2 flat3)\n\n"
@@ -629,13 +660,15 @@ def main(argv=None):
     """One generated module per kernel.  A kernel that cannot be translated is reported as `FAILED <module>: reason` (exit 1);
     its previous output stays in place (stale, and treated as broken by the checks)."""
     rc = 0
+    pyi.write_if_changed(GEN / "SafeBase.lean", pyi.SAFE_HEADER)
     for cfg in INT_KERNELS:
-        module = int_module(cfg)
-        try:
-            write_if_changed(GEN / f"{module}.lean", translate_int(cfg))
-        except (Unsupported, StopIteration, KeyError, IndexError, AttributeError, OSError, SyntaxError, TypeError) as e:
-            print(f"FAILED Hdc.Gen.{module}: unsupported construct in {cfg['func']}: {e!r}")
-            rc = 1
+        for safe in (False, True):
+            module = int_module(cfg, "Safe" if safe else "K")
+            try:
+                write_if_changed(GEN / f"{module}.lean", translate_int(cfg, safe))
+            except (Unsupported, StopIteration, KeyError, IndexError, AttributeError, OSError, SyntaxError, TypeError) as e:
+                print(f"FAILED Hdc.Gen.{module}: unsupported construct in {cfg['func']}: {e!r}")
+                rc = 1
     base.write_if_changed.__globals__["print"] = lambda *a, **k: print(*(str(x).replace("py2lean_num:", TOOL + ":") for x in a), **k)
     rc |= base.main(kernels=NUM_KERNELS, tool=TOOL)
     return rc
